@@ -1910,17 +1910,27 @@ bool Node::perform_handshake(const PeerId& peer_id,
     const auto now = std::chrono::steady_clock::now();
     const auto key = peer_id_to_string(peer_id);
 
-    const auto existing = handshake_state_.find(key);
-    if (existing != handshake_state_.end()) {
-        const auto elapsed = now - existing->second.last_attempt;
+    std::optional<HandshakeRecord> existing;
+    {
+        std::scoped_lock lock(handshake_mutex_);
+        if (const auto it = handshake_state_.find(key); it != handshake_state_.end()) {
+            existing = it->second;
+        }
+    }
+    if (existing.has_value()) {
+        const auto elapsed = now - existing->last_attempt;
         // Inside the cooldown only an exact repeat of the handshake that was validated may
         // skip validation; anything else from this peer id is checked like a first attempt.
-        if (existing->second.success && elapsed < config_.handshake_cooldown &&
-            existing->second.remote_public == remote_public_key &&
-            existing->second.remote_pow_nonce == remote_work_nonce) {
+        if (existing->success && elapsed < config_.handshake_cooldown &&
+            existing->remote_public == remote_public_key &&
+            existing->remote_pow_nonce == remote_work_nonce) {
             return true;
         }
     }
+    const auto remember = [this, &key](const HandshakeRecord& outcome) {
+        std::scoped_lock lock(handshake_mutex_);
+        handshake_state_[key] = outcome;
+    };
 
     HandshakeRecord record{};
     record.last_attempt = now;
@@ -1929,7 +1939,7 @@ bool Node::perform_handshake(const PeerId& peer_id,
 
     if (!network::KeyExchange::validate_public(remote_public_key)) {
         record.success = false;
-        handshake_state_[key] = record;
+        remember(record);
         reputation_.record_failure(peer_id);
         return false;
     }
@@ -1943,7 +1953,7 @@ bool Node::perform_handshake(const PeerId& peer_id,
     if (!pow_valid) {
         pow_counters_.handshake_failure.fetch_add(1, std::memory_order_relaxed);
         record.success = false;
-        handshake_state_[key] = record;
+        remember(record);
         reputation_.record_failure(peer_id);
         reputation_.record_failure(peer_id);
         return false;
@@ -1960,7 +1970,7 @@ bool Node::perform_handshake(const PeerId& peer_id,
 
     reputation_.record_success(peer_id);
     record.success = true;
-    handshake_state_[key] = record;
+    remember(record);
     return true;
 }
 
@@ -1969,6 +1979,7 @@ int Node::reputation_score(const PeerId& peer_id) const {
 }
 
 std::optional<bool> Node::last_handshake_success(const PeerId& peer_id) const {
+    std::scoped_lock lock(handshake_mutex_);
     const auto it = handshake_state_.find(peer_id_to_string(peer_id));
     if (it == handshake_state_.end()) {
         return std::nullopt;
